@@ -153,7 +153,7 @@ func genTree(r *rand.Rand, depth int, root bool) *tnode {
 	case 0, 1:
 		n.Writer = refModeNames[r.Intn(len(refModeNames))]
 	case 2:
-		n.Writer = []string{"hand-pbRaw", "hand-pbFile", "hand-pbRaw-v0"}[r.Intn(3)]
+		n.Writer = []string{"hand-pbRaw", "hand-pbFile", "hand-pbRaw-v0", "hand-pbFile-emptydata"}[r.Intn(4)]
 	}
 	switch r.Intn(5) {
 	case 0:
@@ -225,6 +225,8 @@ func buildTreeNode(st *store.Store, n *tnode, path []string) error {
 		if strings.Contains(n.Writer, "pbRaw") {
 			o.LeafType = pb.Data_Raw
 		}
+		// interior nodes with a present, zero-length Data field: the same file
+		o.EmptyData = strings.Contains(n.Writer, "emptydata")
 		chunks := splitChunks(n.Content, n.Chunk)
 		if len(chunks) == 0 {
 			chunks = [][]byte{{}}
